@@ -683,3 +683,17 @@ Section Rows.
     rewrite app_length. pose proof (length_rows t). lia.
   Qed.
 End Rows.
+
+(* ---- empty lines are ignored ------------------------------------------------------------------------------ *)
+Definition no_blanks (r : erow) : erow := mkRow [] (r_fields r) (r_crlf r).
+
+Theorem empty_lines_ignored_proof comma t trailing :
+  valid_delim comma = true -> Forall (wf_row (encode_rune comma)) t ->
+  csv_read comma (csv_encode comma t trailing) = csv_read comma (csv_encode comma (map no_blanks t) []).
+Proof.
+  intros V H. rewrite (csv_roundtrip_proof comma V t trailing H).
+  rewrite (csv_roundtrip_proof comma V (map no_blanks t) []).
+  - rewrite map_map. reflexivity.
+  - rewrite Forall_forall in *. intros r Hr. apply in_map_iff in Hr as (r0 & <- & Hr0).
+    exact (H r0 Hr0).
+Qed.
